@@ -552,7 +552,11 @@ def check_c12(tier, seed, replay=None, selftest=False):
         chk.cov.update({"states": 1, "transitions": 1, "traces_validated_against_impl": 1, "samples": [replay]})
         return chk.finish()
     cfgs = gen_disp.configs(collapse=(tier == "quick"))
-    beh = [[gen_disp.vcpu_cmd(c), "bindall"] + (["bindtwice"] if i % 16 == 0 else []) for i, c in enumerate(cfgs)]
+    # quick: alternate configurations run with the unnamed CPUID bits all set ("noise"); thorough: both ways
+    beh = []
+    for i, c in enumerate(cfgs):
+        for noise in ((i % 2 == 1,) if tier == "quick" else (False, True)):
+            beh.append([gen_disp.vcpu_cmd(c, noise), "bindall"] + (["bindtwice"] if i % 16 == 0 else []))
     nj = 14
     jobs = [{"name": "disp-%d" % i, "behaviours": beh[i::nj], "driver": "disp"} for i in range(nj)]
     outs = run_jobs(jobs, exe, "TraceDispatch")
